@@ -286,6 +286,7 @@ def pings_inside(sess):
     inmsg = {"c": False, "s": False}
     cur = {"c": 0, "s": 0}
     total, most, msgs_hit = 0, 0, 0
+    connects = set()
     for e in sess.netlog:
         if e[0] == "tx":
             d = "c" if e[4] == saddr else "s"
@@ -296,6 +297,7 @@ def pings_inside(sess):
         else:
             continue
         for p in pkts:
+            if p.type == ps.TYPE_CONNECT and not p.flags & ps.F_ACK: connects.add((d, p.packet_id))
             if p.flags & (ps.F_ACK | ps.F_MULTI) or not p.flags & ps.F_REL or p.substream_id != 0: continue
             key = (d, p.type, p.packet_id, p.fragment_id)
             if key in seen: continue
@@ -309,7 +311,7 @@ def pings_inside(sess):
                     inmsg[d] = False; cur[d] = 0
             elif p.type == ps.TYPE_PING and inmsg[d]:
                 total += 1; cur[d] += 1
-    return total, most, msgs_hit
+    return total, most, msgs_hit, len(connects)
 
 
 def work(idx, seed, quick, judge, to_lines):
@@ -326,9 +328,12 @@ def work(idx, seed, quick, judge, to_lines):
         longest = max((len(m) for ph in script for _, _, m in ph if isinstance(m, bytes)), default=0)
         sess = ps.run_session(cfg, sseed, script, fate_factory(cfg, regime, faults, senders), cfg_s=cfg_s, setup=setup, max_time=900.0)
         bad = judge(sess, "budget" if regime == "budget" else "hostile")
-        tot, most, hit = pings_inside(sess)
+        tot, most, hit, nconnect = pings_inside(sess)
         lines, expect = ([], [])
-        if not sess.crash and len(sess.netlog) <= 20000:
+        # (a client whose SYN was retransmitted while its first CONNECT was still inside the slow socket can send a second CONNECT,
+        # which takes sequence id 2 of substream 0: the channel then does not start where the model's does — such a session is
+        # judged on the real code only)
+        if not sess.crash and len(sess.netlog) <= 20000 and nconnect <= 1:
             lines, expect = to_lines(sess, "s%d" % idx, late_acks=True)
         stats = {"tx": sum(1 for e in sess.netlog if e[0] in ("tx", "stx")), "regime": "slowlink-" + regime,
                  "enc": "lite" if cfg.transport == "lite" else "v%d" % cfg.version, "msgs": len(sess.accepted),
@@ -336,7 +341,7 @@ def work(idx, seed, quick, judge, to_lines):
                  "slowlink": {"pings_inside": tot, "most_in_one_message": most, "messages_with_ping_inside": hit,
                               "profile": cfg.slow["profile"], "direction": cfg.slow["direction"], "faults": faults,
                               "longest_fragments": (longest + cfg.fragment_size - 1) // cfg.fragment_size,
-                              "delivered": sum(len(g) for g in sess.got.values())}}
+                              "delivered": sum(len(g) for g in sess.got.values()), "connect_ids": nconnect}}
         scr = [[(a, b, (c if isinstance(c, bytes) else c[1]).hex() if len(c if isinstance(c, bytes) else c[1]) <= 64 else
                  "(%d bytes, sha1 %s)" % (len(c), __import__("hashlib").sha1(c).hexdigest()), isinstance(c, tuple)) for a, b, c in ph] for ph in script]
         return idx, seed, cfg.describe(), scr, "slowlink-" + regime, sseed, bad, lines, expect, stats, None
